@@ -113,6 +113,7 @@ def parseKind : Sexp → Option LatKind
   | .atom "min" => some .minInt
   | .atom "set" => some .setUnion
   | .atom "opt" => some .optMax
+  | .atom "bset" => some .bset3
   | _ => none
 
 partial def exVars : Ex → List Var
